@@ -9,7 +9,67 @@ use std::time::Duration;
 const PAUSE: Duration = Duration::from_millis(70);
 
 /// args: [mode (0 FIN, 1 RESET, 3 open), code, inject], B (whole control stream incl. type byte), cuts
+/// a[0][3] = 1: the library is the client; the raw server writes its control stream (in pieces), the
+/// client's connect() waits for those SETTINGS before it sends the request
+async fn exec_client_role(a: &Args) -> Args {
+    let (mode, code) = (a[0][0], a[0][1]);
+    let bytes = a2b(&a[1]);
+    let cuts: Vec<usize> = a[2].iter().map(|c| *c as usize).collect();
+    let (rep, addr) = raw_server(None);
+    let client = wt_client();
+    let url = format!("https://127.0.0.1:{}/cc", addr.port());
+    let app = tokio::spawn(async move {
+        let r = tokio::time::timeout(Duration::from_millis(2600), client.connect(&url)).await;
+        (matches!(r, Ok(Ok(_))), client, r.ok().and_then(|x| x.ok()))
+    });
+    let conn = match tokio::time::timeout(T_CALL, async { rep.accept().await.unwrap().await }).await {
+        Ok(Ok(c)) => c,
+        _ => return vec![vec![2], crate::b2s("raw accept failed")],
+    };
+    let mut control = match conn.open_uni().await { Ok(s) => s, Err(_) => return vec![vec![2]] };
+    let mut last = 0usize;
+    for c in &cuts {
+        if *c > last && *c < bytes.len() {
+            let _ = control.write_all(&bytes[last..*c]).await;
+            last = *c;
+            tokio::time::sleep(PAUSE).await;
+        }
+    }
+    let _ = control.write_all(&bytes[last..]).await;
+    match mode {
+        0 => { let _ = control.finish(); }
+        1 => { tokio::time::sleep(PAUSE).await; let _ = control.reset(qvi(code)); }
+        _ => {}
+    }
+    // the request arrives only if the client accepted the SETTINGS
+    let mut keep = None;
+    let established: u64 = match tokio::time::timeout(Duration::from_millis(900), conn.accept_bi()).await {
+        Ok(Ok((mut s, mut r))) => match tokio::time::timeout(Duration::from_millis(900), read_one_frame(&mut r)).await {
+            Ok(Ok((1, _))) => {
+                let _ = s.write_all(&response_bytes("200", &[])).await;
+                keep = Some((s, r));
+                1
+            }
+            _ => 3,
+        },
+        _ => 2,
+    };
+    let (ch, cr) = raw_wait_closed(&conn, Duration::from_millis(500)).await;
+    let (app_ok, client, c) = match tokio::time::timeout(Duration::from_millis(3000), app).await {
+        Ok(Ok(x)) => x,
+        _ => return vec![vec![1, established], ch, cr, vec![2]],
+    };
+    drop(c);
+    drop(keep);
+    client.close(vi(0), b"");
+    rep.close(qvi(0), b"");
+    vec![vec![1, established], ch, cr, vec![app_ok as u64]]
+}
+
 pub async fn exec(a: &Args) -> Args {
+    if a[0].get(3).copied().unwrap_or(0) == 1 {
+        return exec_client_role(a).await;
+    }
     let (mode, code, inject) = (a[0][0], a[0][1], a[0][2]);
     let bytes = a2b(&a[1]);
     let cuts: Vec<usize> = a[2].iter().map(|c| *c as usize).collect();
@@ -204,6 +264,22 @@ pub fn settings_frame() -> Vec<u8> {
 }
 
 pub fn generate(rng: &mut Rng, thorough: bool, cut_matrix: bool) -> Vec<Case> {
+    let mut cs = generate_server_role(rng, thorough, cut_matrix);
+    // the same control streams sent by a raw server to the library as client (no injected events:
+    // the client has nothing else going on before the session exists)
+    let n = cs.len();
+    for i in 0..n {
+        let c = &cs[i];
+        if c.args[0][2] == 0 && c.args.len() <= 3 && (thorough || !cut_matrix || i % 2 == 0) {
+            let mut args = c.args.clone();
+            args[0].push(1);
+            cs.push(Case::new(611, args, &format!("client-role:{}", c.label)));
+        }
+    }
+    cs
+}
+
+fn generate_server_role(rng: &mut Rng, thorough: bool, cut_matrix: bool) -> Vec<Case> {
     let mut cs = vec![];
     let ok = peer_control_bytes();
     let sf = settings_frame();
